@@ -70,9 +70,32 @@ def cmn_order_rule(ctx, P):
         ctx.check(r, x in args and not later, "feat_s2mfc2feat_live:final:%s@%d" % (x, calls.index(c)), f.where(c), "feat_cmn is called before `%s` gets its final value (line %s): the block is normalised over more frames than are consumed, and the frames handed back are normalised again by the next call" % (x, f.line(later[0]["node"]) if later else "?"))
 
 
+def consume_all_rule(ctx, P):
+    r = ctx.rule("PAIR.consume-all", "the decoder's processing entry points hand every sample to the acoustic model: acmod_process_raw / acmod_process_float32 take at most what the cepstrum ring holds per call, so each call sits in a loop that runs while the remaining count it decrements is not zero (also when the frames are only buffered)", floor=2)
+    for name, inner in (("decoder_process_int16", "acmod_process_raw"), ("decoder_process_float32", "acmod_process_float32")):
+        f = P.fn(name, "decoder.c")
+        ctx.touch(f)
+        cs = f.calls(inner)
+        if not cs:
+            raise AnalysisIncomplete("%s no longer calls %s" % (name, inner))
+        for c in cs:
+            a = f.args(c)
+            cnt = f.canon(a[2], subst=False).lstrip("&") if len(a) > 2 else "?"
+            lp = f.enclosing(c, ("While", "For", "Do"))
+            ok = False
+            while lp is not None and not ok:
+                cond = {"While": 0, "For": 1, "Do": 1}[f.k(lp)]
+                cn = f.ch(lp)[cond]
+                if f.k(cn) != "Absent" and cnt in [f.nodes[i_]["name"] for i_ in f.walk(cn) if f.k(i_) == "DeclRef"]:
+                    ok = True
+                lp = f.enclosing(lp, ("While", "For", "Do"))
+            ctx.check(r, ok, key(f, "%s@%d" % (inner, f.line(c))), f.where(c), "%s is called outside a loop over the remaining samples `%s`: a block longer than the cepstrum ring is cut short and the rest of the audio is dropped" % (inner, cnt))
+
+
 def run(ctx):
     P = ctx.P
     cmn_order_rule(ctx, P)
+    consume_all_rule(ctx, P)
     ac = {f.name: f for f in P.functions(U) if f.file.endswith(U)}
     need = ["acmod_process_raw", "acmod_process_float32", "acmod_process_full_raw", "acmod_process_full_float32", "acmod_process_mfcbuf", "acmod_process_cep",
             "acmod_process_full_cep", "acmod_rewind", "acmod_advance", "acmod_start_utt", "acmod_end_utt", "calc_feat_idx", "acmod_set_grow"]
